@@ -1,7 +1,9 @@
 """C05 - signal objects own their data; analysis functions do not mutate their inputs."""
 import copy
 import os
+import shutil
 import tempfile
+import warnings
 
 import numpy as np
 from hypothesis import strategies as st
@@ -288,161 +290,535 @@ def cluster_values(case, ctx):
     ctx.check(now == snap, "Cluster modified the caller's input values")
 
 
+
 # ---------------------------------------------------------------------------
 # clause 2: pure functions
-
-_TMP = [None]
-
-
-def _tmpfile():
-    if _TMP[0] is None or not os.path.isdir(_TMP[0]):
-        _TMP[0] = tempfile.mkdtemp(prefix="verif_c05_")
-    return os.path.join(_TMP[0], "p%d.txt" % os.getpid())
+#
+# The registry is declarative: a *call form* = (function, positional arguments, keyword arguments) whose argument items
+# are literals, "$key" references into a lazily built environment (Env) or V(...) values computed from it.  `cross()`
+# generates one form per element of the cross product of a function's optional arguments (D = option left out, i.e. at
+# its default), so that a defect needing two options to be non-default together is requested.
 
 
-def _registry(E):
-    """name -> (function, args, kwargs).  E: environment with containers a, b (drawn dtype), af/bf (float arrays), dt, signals."""
-    a, b, dt = E["a"], E["b"], E["dt"]
-    T = E["T"]
-    asig, bsig, sig = E["asig"], E["bsig"], E["sig"]
-    n = len(E["af"])
-    fa_f, fa_s = E["fa_freqs"], E["fa_spec"]
-    sm_f = E["sm_freqs"]
-    tt = E["tt"]
-    shifts = E["shifts"]
-    R = {
-        "sdof.response_series": (sdof.response_series, (a, dt, T, 0.05), {}),
-        "sdof.nigam_and_jennings_response": (sdof.nigam_and_jennings_response, (a, dt, T, 0.0), {}),
-        "sdof.pseudo_response_spectra": (sdof.pseudo_response_spectra, (a, dt, T, 0.05), {}),
-        "sdof.true_response_spectra": (sdof.true_response_spectra, (a, dt, T, 0.05), {}),
-        "sdof.calc_resp_uke_spectrum": (sdof.calc_resp_uke_spectrum, (asig,), {"periods": T}),
-        "sdof.calc_input_energy_spectrum": (sdof.calc_input_energy_spectrum, (asig,), {"periods": T, "series": True}),
-        "disp.calc_velo_and_disp(trap)": (disp_mod.calc_velo_and_disp_from_accel_arr, (a, dt), {"trap": True}),
-        "disp.calc_velo_and_disp(rect)": (disp_mod.calc_velo_and_disp_from_accel_arr, (a, dt), {"trap": False}),
-        "disp.velocity_and_displacement_from_acceleration": (disp_mod.velocity_and_displacement_from_acceleration, (a, dt), {}),
-        "im.calc_sig_dur_vals": (im.calc_sig_dur_vals, (a, dt), {"se": True}),
-        "im.calc_significant_duration": (im.calc_significant_duration, (a, dt), {}),
-        "im.calc_sig_dur": (im.calc_sig_dur, (asig,), {}),
-        "im.calc_sig_dur(cav)": (im.calc_sig_dur, (asig,), {"im": im.calc_cav, "se": True}),
-        "im.calc_peak": (im.calc_peak, (a,), {}),
-        "im.calc_arias_intensity": (im.calc_arias_intensity, (asig,), {}),
-        "im.calc_cav": (im.calc_cav, (asig,), {}),
-        "im.calc_cav_dp": (im.calc_cav_dp, (E["asig_long"],), {}),
-        "im.calc_isv": (im.calc_isv, (asig,), {}),
-        "im.cumulative_response_spectra": (im.cumulative_response_spectra, (asig, "arias_intensity"), {"periods": T}),
-        "im.calc_max_velocity_period": (im.calc_max_velocity_period, (asig,), {}),
-        "im.max_acceleration_period": (im.max_acceleration_period, (asig,), {}),
-        "im.max_fa_period": (im.max_fa_period, (asig,), {}),
-        "im.calc_bandwidth_freqs": (im.calc_bandwidth_freqs, (asig,), {}),
-        "im.calc_bandwidth_f_min": (im.calc_bandwidth_f_min, (asig,), {}),
-        "im.calc_bandwidth_f_max": (im.calc_bandwidth_f_max, (asig,), {}),
-        "im.calc_brac_dur": (im.calc_brac_dur, (asig, E["thr"]), {"se": True}),
-        "im.calc_bracketed_duration": (im.calc_bracketed_duration, (asig, E["thr"]), {}),
-        "im.calc_integral_of_abs_velocity": (im.calc_integral_of_abs_velocity, (asig,), {}),
-        "im.calc_cumulative_abs_displacement": (im.calc_cumulative_abs_displacement, (asig,), {}),
-        "im.calc_integral_of_abs_acceleration": (im.calc_integral_of_abs_acceleration, (asig,), {}),
-        "im.calc_n_cyc_array_w_power_law": (im.calc_n_cyc_array_w_power_law, (a, E["aref"], 0.3), {"cut_off": 0.01}),
-        "im.calc_n_cyc_array_w_power_law(array b)": (im.calc_n_cyc_array_w_power_law, (a, E["aref"], E["bexp"]), {}),
-        "im.calc_cyc_amp_array_w_power_law": (im.calc_cyc_amp_array_w_power_law, (a, 15, 0.3), {}),
-        "im.calc_cyc_amp_array_w_power_law(array b)": (im.calc_cyc_amp_array_w_power_law, (a, 15, E["bexp"]), {}),
-        "im.calc_cyc_amp_gm_arrays_w_power_law": (im.calc_cyc_amp_gm_arrays_w_power_law, (a, b, 15, 0.3), {}),
-        "im.calc_cyc_amp_combined_arrays_w_power_law": (im.calc_cyc_amp_combined_arrays_w_power_law, (a, b, 15, 0.3), {}),
-        "im.calc_unit_kinetic_energy": (im.calc_unit_kinetic_energy, (asig,), {}),
-        "im.calc_asi": (im.calc_asi, (asig,), {"periods": T}),
-        "im.calc_vsi": (im.calc_vsi, (asig,), {"periods": T}),
-        "average.get_section_average": (f_av.get_section_average, (sig,), {"start": 0, "end": (n // 2) * dt}),
-        "average.calc_step_fn_vals_error": (f_av.calc_step_fn_vals_error, (a,), {"pow": 1}),
-        "average.calc_step_fn_vals_error(pow2,down)": (f_av.calc_step_fn_vals_error, (a,), {"pow": 2, "dir": "down"}),
-        "average.calc_step_fn_steps_vals": (f_av.calc_step_fn_steps_vals, (a,), {}),
-        "average.calc_roll_av_vals": (f_av.calc_roll_av_vals, (a, 5), {"mode": "centre"}),
-        "generic.interp2d": (f_gen.interp2d, (E["xq"], E["xf"], E["ftab"]), {}),
-        "generic.interp_left": (f_gen.interp_left, (E["xq_in"], E["xf"], E["ycol"]), {}),
-        "generic.remove_poly": (f_gen.remove_poly, (a,), {"poly_fit": 2}),
-        "frequency.get_sig_freq_range": (f_fr.get_sig_freq_range, (asig,), {}),
-        "frequency.get_sig_array_indexes_range": (f_fr.get_sig_array_indexes_range, (E["smooth"],), {}),
-        "frequency.calc_smooth_fa_spectrum": (f_fr.calc_smooth_fa_spectrum, (fa_f, fa_s, sm_f), {"band": 40}),
-        "frequency.calc_smooth_fa_spectrum(default freqs)": (f_fr.calc_smooth_fa_spectrum, (fa_f, fa_s), {}),
-        "frequency.generate_smooth_fa_spectrum": (f_fr.generate_smooth_fa_spectrum, (sm_f, fa_f, fa_s), {}),
-        "frequency.calc_smoothing_matrix_konno_1998": (f_fr.calc_smoothing_matrix_konno_1998, (fa_f, sm_f), {}),
-        "frequency.calc_smooth_fa_spectrum_w_custom_matrix": (f_fr.calc_smooth_fa_spectrum_w_custom_matrix, (asig, E["smat"]), {}),
-        "frequency.generate_fa_spectrum": (f_fr.generate_fa_spectrum, (sig,), {}),
-        "frequency.generate_fa_spectrum(no pad)": (f_fr.generate_fa_spectrum, (sig,), {"n_pad": False}),
-        "frequency.calc_fa_spectrum": (f_fr.calc_fa_spectrum, (sig,), {"p2_plus": 1}),
-        "frequency.fas2values": (f_fr.fas2values, (fa_s, dt), {}),
-        "frequency.fas2signal": (f_fr.fas2signal, (fa_s, dt), {"stype": "acc"}),
-        "peaks.get_peak_array_indices": (f_pk.get_peak_array_indices, (a,), {}),
-        "peaks.get_peak_array_indices(max)": (f_pk.get_peak_array_indices, (a,), {"ptype": "max"}),
-        "peaks.get_peak_array_indices(min)": (f_pk.get_peak_array_indices, (a,), {"ptype": "min"}),
-        "peaks.get_peak_indices": (f_pk.get_peak_indices, (asig,), {}),
-        "peaks.get_zero_crossings_array_indices": (f_pk.get_zero_crossings_array_indices, (a,), {"keep_adj_zeros": True}),
-        "peaks.get_zero_crossings_array_indices(tol)": (f_pk.get_zero_crossings_array_indices, (a,), {"tol": E["thr"]}),
-        "peaks.get_zero_crossings_array_indices(one-signed)": (f_pk.get_zero_crossings_array_indices, (E["apos"],), {}),
-        "peaks.get_switched_peak_array_indices(one-signed)": (f_pk.get_switched_peak_array_indices, (E["apos"],), {}),
-        "peaks.get_zero_crossings_indices": (f_pk.get_zero_crossings_indices, (asig,), {}),
-        "peaks.get_zero_and_peak_array_indices": (f_pk.get_zero_and_peak_array_indices, (a,), {}),
-        "peaks.get_major_change_indices": (f_pk.get_major_change_indices, (a,), {}),
-        "peaks.determine_peaks_only_delta_series": (f_pk.determine_peaks_only_delta_series, (a,), {}),
-        "peaks.determine_pseudo_cyclic_peak_only_series": (f_pk.determine_pseudo_cyclic_peak_only_series, (a,), {}),
-        "peaks.get_switched_peak_indices": (f_pk.get_switched_peak_indices, (asig,), {}),
-        "peaks.get_switched_peak_array_indices": (f_pk.get_switched_peak_array_indices, (a,), {}),
-        "peaks.get_switched_peak_array_indices(tol)": (f_pk.get_switched_peak_array_indices, (a,), {"tol": E["thr"]}),
-        "peaks.get_n_cyc_array": (f_pk.get_n_cyc_array, (a,), {}),
-        "peaks.get_n_cyc_array(switched,peak)": (f_pk.get_n_cyc_array, (a,), {"opt": "switched", "start": "peak"}),
-        "peaks.determine_indices_of_peaks_for_cleaned_array": (f_pk.determine_indices_of_peaks_for_cleaned_array, (a,), {}),
-        "peaks.clean_out_non_changing": (f_pk.clean_out_non_changing, (a,), {}),
-        "peaks.determine_peak_only_delta_series_4_cleaned_data": (f_pk.determine_peak_only_delta_series_4_cleaned_data, (a,), {}),
-        "time_shift.put_array_in_2d_array": (f_ts.put_array_in_2d_array, (a, shifts), {"clip": "both"}),
-        "time_shift.join_values_w_shifts": (f_ts.join_values_w_shifts, (a, np.abs(shifts)), {"jtype": "sub"}),
-        "time_shift.join_sig_w_time_shift": (f_ts.join_sig_w_time_shift, (sig, np.abs(shifts) * dt), {}),
-        "time_shift.time_indices": (f_ts.time_indices, (n, dt, 0, (n // 2) * dt, False), {}),
-        "time_step.interp_array_to_approx_dt(refine)": (f_tstep.interp_array_to_approx_dt, (a, dt), {"target_dt": dt / 2.5}),
-        "time_step.interp_array_to_approx_dt(decimate)": (f_tstep.interp_array_to_approx_dt, (a, dt), {"target_dt": dt * 2.5, "even": False}),
-        "time_step.interp_to_approx_dt": (f_tstep.interp_to_approx_dt, (asig,), {"target_dt": dt / 3}),
-        "time_step.resample_to_approx_dt": (f_tstep.resample_to_approx_dt, (asig,), {"target_dt": dt / 2}),
-        "time_step.time_series_from_motion": (f_tstep.time_series_from_motion, (a, dt), {}),
-        "stockwell.transform": (stockwell.transform, (a,), {}),
-        "stockwell.transform_w_scipy_fft": (stockwell.transform_w_scipy_fft, (a,), {}),
-        "stockwell.itransform": (stockwell.itransform, (E["stock"],), {}),
-        "stockwell.get_max_stockwell_freq": (stockwell.get_max_stockwell_freq, (asig,), {}),
-        "stockwell.get_max_tifq_vals_freq": (stockwell.get_max_tifq_vals_freq, (E["stock"], dt), {}),
-        "surface.calc_surface_energy": (surface.calc_surface_energy, (asig, tt), {"nodal": True}),
-        "surface.calc_surface_energy(reductions,trim,start)": (surface.calc_surface_energy, (asig, tt), {
-            "nodal": False, "up_red": E["red"], "down_red": E["red"], "stt": float(np.max(tt)), "trim": True, "start": True}),
-        "surface.calc_cum_abs_surface_energy": (surface.calc_cum_abs_surface_energy, (asig, tt), {}),
-        "surface.get_time_shift_motions": (surface.get_time_shift_motions, (asig, tt), {"stt": dt, "start": True}),
-        "multiple.combine_at_angle": (multiple.combine_at_angle, (asig, bsig, 33.0), {}),
-        "multiple.compute_rotated(pga)": (multiple.compute_rotated, (asig, bsig), {"parameter": "pga", "points": 5}),
-        "multiple.compute_rotated(arias)": (multiple.compute_rotated, (asig, bsig), {"parameter": "arias_intensity", "points": 4, "angle_off_ns": 20.0}),
-        "multiple.compute_rotated(func)": (multiple.compute_rotated, (asig, bsig), {"func": im.calc_cav, "points": 3}),
-        "time_step.interp_to_approx_dt(same dt)": (f_tstep.interp_to_approx_dt, (asig,), {"target_dt": dt, "even": False}),
-        "time_step.interp_to_approx_dt(same dt, even)": (f_tstep.interp_to_approx_dt, (E["asig_even"],), {"target_dt": dt}),
-        "time_step.resample_to_approx_dt(same dt)": (f_tstep.resample_to_approx_dt, (E["asig_even"],), {"target_dt": dt}),
-        "time_step.interp_array_to_approx_dt(same dt)": (f_tstep.interp_array_to_approx_dt, (a, dt), {"target_dt": dt, "even": False}),
-        # object methods that take caller arrays (settings): the arrays must come back unchanged
-        "AccSignal.generate_response_spectrum(periods)": (lambda arr: _on_fresh(E, lambda o: (o.generate_response_spectrum(response_times=arr), np.array(o.s_a))[1]), (E["T_desc"],), {}),
-        "AccSignal.gen_response_spectrum(periods, ratio)": (lambda arr: _on_fresh(E, lambda o: (o.gen_response_spectrum(response_times=arr, min_dt_ratio=2), np.array(o.s_d))[1]), (E["T_mixed"],), {}),
-        "AccSignal.response_series(periods)": (lambda arr: _on_fresh(E, lambda o: o.response_series(response_times=arr, xi=0.02)), (E["T_desc"],), {}),
-        "AccSignal.response_times=": (lambda arr: _on_fresh(E, lambda o: (setattr(o, "response_times", arr), np.array(o.s_a))[1]), (E["T_mixed"],), {}),
-        "Signal.smooth_fa_freqs=": (lambda arr: _on_fresh(E, lambda o: (setattr(o, "smooth_fa_freqs", arr), np.array(o.smooth_fa_spectrum))[1]), (E["F_desc"],), {}),
-        "Signal.gen_smooth_fa_spectrum(freqs)": (lambda arr: _on_fresh(E, lambda o: (o.gen_smooth_fa_spectrum(smooth_fa_freqs=arr), np.array(o.smooth_fa_spectrum))[1]), (E["F_desc"],), {}),
-        "Signal.butter_pass(ndarray cut-offs)": (lambda arr: _on_fresh(E, lambda o: (o.butter_pass(arr, filter_order=2), np.array(o.values))[1]), (E["cut"],), {}),
-        "Signal.add_series": (lambda arr: _on_fresh(E, lambda o: (o.add_series(arr), np.array(o.values))[1]), (E["af"],), {}),
-        "Signal.add_signal": (lambda other: _on_fresh(E, lambda o: (o.add_signal(other), np.array(o.values))[1]), (bsig,), {}),
-        "Signal.reset_values": (lambda arr: _on_fresh(E, lambda o: (o.reset_values(arr), np.array(o.values))[1]), (E["af"],), {}),
-        # the time step as a 0-d ndarray (what np.load / np.loadtxt return for a stored scalar): it is an argument like any other
-        "time_step.interp_array_to_approx_dt(0-d dt)": (f_tstep.interp_array_to_approx_dt, (a, E["dt0"]), {"target_dt": dt / 2.5}),
-        "time_step.interp_array_to_approx_dt(0-d dt, decimate)": (f_tstep.interp_array_to_approx_dt, (a, E["dt0"]), {"target_dt": dt * 2.5, "even": False}),
-        "disp.calc_velo_and_disp(0-d dt)": (disp_mod.calc_velo_and_disp_from_accel_arr, (a, E["dt0"]), {}),
-        "sdof.response_series(0-d dt)": (sdof.response_series, (a, E["dt0"], T, 0.05), {}),
-        "sdof.pseudo_response_spectra(0-d dt)": (sdof.pseudo_response_spectra, (E["af"], E["dt0"], T, 0.05), {}),
-        "AccSignal(0-d dt).s_a": (lambda d0: (lambda o: (np.array(o.s_a), np.array(o.time), o.pgv, float(o.dt)))(
-            eqsig.AccSignal(np.array(E["af"]), d0, response_times=np.array([3 * dt, 9 * dt, 30 * dt]))), (E["dt0"],), {}),
-        "interp_to_approx_dt(AccSignal with 0-d dt)": (lambda d0: (lambda o: (f_tstep.interp_to_approx_dt(o, target_dt=dt / 3), float(o.dt)))(
-            eqsig.AccSignal(np.array(E["af"]), d0)), (E["dt0"],), {}),
-        "loader.save_signal": (loader.save_signal, (_tmpfile(), asig), {}),
-        "loader.save_values_and_dt": (loader.save_values_and_dt, (_tmpfile(), a, dt, "lab"), {}),
-    }
-    return R
+class V(object):
+    """A value computed from the environment when the form is resolved."""
+
+    def __init__(self, f):
+        self.f = f
+
+
+class L(object):
+    """An option value with an explicit label (for values whose repr is not a usable name)."""
+
+    def __init__(self, label, value):
+        self.label = label
+        self.value = value
+
+
+D = L("", None)  # the option is not passed (left at its default)
+
+# size caps per cost category: (quick, thorough) longest record (samples) / largest product given to a form of the category in
+# the mid-range enumerations; measured so that one call stays below ~0.3 s (quick) / ~1.5 s (thorough)
+CAPS = {
+    "vec": (300000, 1500000),     # O(n) vectorised
+    "vec2": (120000, 600000),     # O(n) vectorised, several passes / FFTs / python-level min()/max() / filters
+    "resample": (50000, 250000),  # FFT resampling (arbitrary, also prime, lengths)
+    "peaks": (40000, 200000),     # python loop over the peaks of the record
+    "zctol": (4000, 10000),       # quadratic in the number of crossings (list membership in a loop)
+    "major": (4000, 20000),       # python loop, one np.mean + np.isclose per sample
+    "sdof": (6000, 60000),        # python loop over the samples, a handful of periods
+    "sdofmany": (2400, 20000),    # same with the 100-241 default periods (and an interpolated record)
+    "smooth": (40000, 200000),    # (n/2 x 50) smoothing matrix
+    "quad": (2000, 3600),         # O(n^2) memory (n x n temporaries)
+    "stock": (1700, 4000),        # O(n^2) complex temporaries
+    "elastic": (2500, 8000),      # O(n^2) time
+    "elastic3": (1500, 4000),
+    "save": (30000, 200000),      # python loop writing one line per sample
+}
+LADDER_LO = {"quad": 900, "stock": 900, "elastic": 900, "elastic3": 700, "zctol": 1200, "sdofmany": 1000}
+
+
+class Form(object):
+    __slots__ = ("name", "fn", "args", "kwargs", "cap", "primary", "count", "flags")
+
+    def __init__(self, name, fn, args, kwargs, cap, primary, count, flags):
+        self.name, self.fn, self.args, self.kwargs, self.cap, self.primary, self.count, self.flags = (
+            name, fn, tuple(args), dict(kwargs or {}), cap, primary, count, flags)
+
+
+FORMS = {}
+
+
+def form(name, fn, args, kwargs=None, cap="vec", primary=True, count=None, **flags):
+    """count: cost category of the form when the *count* dimension (periods, shifts, travel times, exponents, target frequencies,
+    table rows) is laddered instead of the record length: 'nm' = O(n*m) vectorised, 'loop' = python loop over n with m-vectors."""
+    if name in FORMS:
+        raise core.HarnessError("duplicate call form %r" % name)
+    assert cap in CAPS, cap
+    FORMS[name] = Form(name, fn, args, kwargs, cap, primary, count, flags)
+
+
+def _lab(v):
+    if isinstance(v, L):
+        return v.label, v.value
+    if isinstance(v, str) and v.startswith("$"):
+        return v[1:], v
+    if isinstance(v, float):
+        return "%g" % v, v
+    return repr(v).replace("'", ""), v
+
+
+def opt(kw, *values):
+    """An optional argument: left out (default) or one of `values`."""
+    return (kw, [D] + list(values))
+
+
+def cross(name, fn, args, opts, cap="vec", count=None, skip=None, **flags):
+    """One form per element of the cross product of the optional arguments `opts` = [opt(kw, v1, v2..), ...].  The all-default
+    and the 'every option at its first non-default value' corners are *primary* (run in every small-record case); the others
+    rotate through the small-record cases and are all enumerated at mid-range sizes."""
+    import itertools
+    corner = tuple(vals[1] for _, vals in opts)
+    for combo in itertools.product(*[vals for _, vals in opts]):
+        kw, labs = {}, []
+        for (k, _), v in zip(opts, combo):
+            if v is D:
+                continue
+            lab, val = _lab(v)
+            kw[k] = val
+            labs.append("%s=%s" % (k, lab))
+        if skip is not None and skip(kw):
+            continue
+        nm = name if not labs else "%s(%s)" % (name, ",".join(labs))
+        prim = all(v is D for v in combo) or all(a is b for a, b in zip(combo, corner))
+        form(nm, fn, args, kw, cap=cap, primary=prim, count=count, **flags)
+
+
+def _resolve(x, E):
+    if isinstance(x, V):
+        return x.f(E)
+    if isinstance(x, str) and x.startswith("$"):
+        return E[x[1:]]
+    return x
+
+
+# -- the lazily built environment ------------------------------------------------------------------------------------------
+
+class Env(object):
+    """Arguments for the call forms, built on first use from the two records (containers a, b), dt, an RNG seed and the optional
+    *count* m (number of periods / shifts / travel times / exponents / target frequencies / table rows; None = the small
+    legacy lists)."""
+
+    def __init__(self, a, b, dt, seed, m=None):
+        self.d = {"dt": dt, "seed": int(seed), "m": m}
+        self.lazy = {"a": a, "b": b}  # containers, or callables making them (mid-range records are built when a form needs them)
+        self.tmpdirs = []
+
+    def __getitem__(self, k):
+        if k not in self.d:
+            if k in self.lazy:
+                v = self.lazy[k]
+                self.d[k] = v() if callable(v) else v
+            else:
+                self.d[k] = _BUILD[k](self)
+        return self.d[k]
+
+    def cleanup(self):
+        for d in self.tmpdirs:
+            shutil.rmtree(d, ignore_errors=True)
+        self.tmpdirs = []
+        self.d.pop("tmpfile", None)
+
+
+def _rs(E, salt):
+    return np.random.RandomState((E["seed"] * 131 + salt) % (2 ** 31 - 1))
+
+
+def _tmpfile(E):
+    d = tempfile.mkdtemp(prefix="verif_c05_")
+    E.tmpdirs.append(d)
+    return os.path.join(d, "p.txt")
+
+
+def _b_T(E):
+    dt, m = E["dt"], E["m"]
+    if m is None:
+        return np.array([0.0, 3 * dt, 12 * dt, 40 * dt])
+    return np.concatenate([[0.0], dt * np.logspace(np.log10(3.0), np.log10(400.0), max(1, m - 1))])
+
+
+def _b_T_mixed(E):
+    dt = E["dt"]
+    if E["m"] is None:
+        return np.array([12 * dt, 40 * dt, 3 * dt, 25 * dt])
+    return np.array(_rs(E, 1).permutation(E["T"][1:]))
+
+
+def _b_tt(E):
+    dt, m = E["dt"], E["m"]
+    if m is None:
+        return np.array([0.0, 1.5 * dt, 4 * dt])
+    k = max(4.0, min(E["n"] / 8.0, 60.0))
+    return dt * np.concatenate([[0.0], np.sort(_rs(E, 2).uniform(0.5, k, max(1, m - 1)))])
+
+
+def _b_shifts(E):
+    m = E["m"]
+    if m is None:
+        return np.array([-2, 0, 3])
+    k = int(max(3, min(E["n"] // 8, 50)))
+    s = _rs(E, 3).randint(-k, k + 1, m)
+    s[0], s[-1] = -k, k
+    return s
+
+
+def _b_xf(E):
+    m = E["m"]
+    return np.arange(6 if m is None else max(6, m // 2), dtype=float)
+
+
+def _b_xq(E):
+    if E["m"] is None:
+        return np.array([-0.5, 0.0, 1.25, 4.0, 5.5])
+    return _rs(E, 4).uniform(-0.5, len(E["xf"]) - 0.5, E["m"])
+
+
+def _b_xq_in(E):
+    if E["m"] is None:
+        return np.array([0.0, 1.25, 4.0, 5.0])
+    q = _rs(E, 5).uniform(0.0, len(E["xf"]) - 1.0, E["m"])
+    q[0] = 0.0
+    return q
+
+
+def _b_stock(E):
+    n = E["n"]
+    if n <= 400:
+        return stockwell.transform(E["af"])
+    r, c = min(n // 2, 600), min(n, 1600)  # any 2-d complex array is a valid time-frequency table for the two consumers
+    rs = _rs(E, 6)
+    return rs.standard_normal((r, c)) + 1j * rs.standard_normal((r, c))
+
+
+def _b_asig_sw(E):
+    o = eqsig.AccSignal(np.array(E["af"][:400]), E["dt"])
+    o.swtf = stockwell.transform(o.values)
+    return o
+
+
+def _b_e2d(E):
+    tt, dt = E["tt"], E["dt"]
+    return _rs(E, 7).standard_normal((len(tt), E["n"] + int(np.max(2 * tt / dt))))
+
+
+def _fresh(E):
+    return eqsig.AccSignal(np.array(E["af"]), E["dt"])
+
+
+_BUILD = {
+    "af": lambda E: np.array(E["a"], dtype=float),
+    "bf": lambda E: np.array(E["b"], dtype=float),
+    "n": lambda E: len(E["af"]),
+    "a2": lambda E: copy.deepcopy(E["a"]),
+    "T": _b_T,
+    "Tnz": lambda E: np.array(E["T"][1:]),
+    "T_desc": lambda E: np.array(E["T"][1:][::-1]),
+    "T_mixed": _b_T_mixed,
+    "w": lambda E: 2 * np.pi / E["T"][1:],
+    "xis": lambda E: np.array([0.05, 0.1]),
+    "asig": lambda E: eqsig.AccSignal(np.array(E["a"], dtype=float), E["dt"]),
+    "bsig": lambda E: eqsig.AccSignal(np.array(E["b"], dtype=float), E["dt"]),
+    "sig": lambda E: eqsig.Signal(np.array(E["a"], dtype=float), E["dt"]),
+    "asig_long": lambda E: eqsig.AccSignal(np.resize(E["af"], max(E["n"], int(2.2 / E["dt"]) + 2)) * 1.0, E["dt"]),
+    "asig_even": lambda E: eqsig.AccSignal(np.array(E["af"][:2 * (E["n"] // 2)]), E["dt"]),
+    "asig_sw": _b_asig_sw,
+    "fa": lambda E: f_fr.calc_fa_spectrum(eqsig.Signal(np.array(E["af"]), E["dt"])),
+    "fa_spec": lambda E: E["fa"][0],
+    "fa_freqs": lambda E: E["fa"][1],
+    "sm_freqs": lambda E: np.logspace(-0.5, 1.2, 12 if E["m"] is None else E["m"]),
+    "smooth": lambda E: np.array(_fresh(E).smooth_fa_spectrum),
+    "smat": lambda E: f_fr.calc_smoothing_matrix_konno_1998(_fresh(E).fa_frequencies, E["sm_freqs"]),
+    "tt": _b_tt,
+    "tt0": lambda E: float(E["tt"][-1]),
+    "red": lambda E: np.linspace(1.0, 0.8, len(E["tt"])),
+    "red2": lambda E: np.linspace(0.95, 0.7, len(E["tt"])),
+    "stt": lambda E: float(np.max(E["tt"])),
+    "e2d": _b_e2d,
+    "shifts": _b_shifts,
+    "ashifts": lambda E: np.abs(E["shifts"]),
+    "tshifts": lambda E: np.abs(E["shifts"]) * E["dt"],
+    "thr": lambda E: float(0.3 * np.max(np.abs(E["af"]))) if np.any(E["af"]) else 0.1,
+    "aref": lambda E: float(0.65 * max(np.max(np.abs(E["af"])), 1e-9)),
+    "bexp": lambda E: np.array([0.2, 0.34, 0.5]) if E["m"] is None else np.linspace(0.2, 0.5, E["m"]),
+    "xf": _b_xf,
+    "ftab": lambda E: _rs(E, 8).standard_normal((len(E["xf"]), 3)),
+    "ycol": lambda E: _rs(E, 9).standard_normal(len(E["xf"])),
+    "xq": _b_xq,
+    "xq_in": _b_xq_in,
+    "stock": _b_stock,
+    "apos": lambda E: np.abs(E["af"]) + 1.0,
+    "m2d": lambda E: np.array(E["af"][:4 * (E["n"] // 4)].reshape(4, -1)),
+    "dt0": lambda E: np.array(E["dt"]),
+    "F_desc": lambda E: np.array([20.0, 5.0, 1.0, 0.3]) if E["m"] is None else np.logspace(1.3, -0.5, E["m"]),
+    "cut": lambda E: np.array([0.05 / E["dt"] * 0.2, 0.05 / E["dt"] * 2.0]),
+    "half_t": lambda E: (E["n"] // 2) * E["dt"],
+    "half_i": lambda E: E["n"] // 2,
+    "third_i": lambda E: E["n"] // 3,
+    "n_fft": lambda E: 2 * E["n"] + 3,
+    "tmpfile": _tmpfile,
+}
+
+
+def _on_fresh(E, f):
+    """Run a method of a freshly constructed AccSignal (so that calling twice is repeatable and the object itself is not an argument)."""
+    return f(_fresh(E))
+
+
+def _m(f):
+    """An object-method form: fn(arr) applies `f(obj, arr)` to a fresh AccSignal of the record."""
+    return V(lambda E: (lambda arr: _on_fresh(E, lambda o: f(o, arr))))
+
+
+def _build_forms():
+    dtv = {"dt/2.5": V(lambda E: E["dt"] / 2.5), "dt*2.5": V(lambda E: E["dt"] * 2.5), "dt": V(lambda E: E["dt"]),
+           "dt/3": V(lambda E: E["dt"] / 3), "dt/2": V(lambda E: E["dt"] / 2)}
+    B = [True, False]  # noqa
+
+    # --- sdof
+    for nm, fn in (("response_series", sdof.response_series), ("pseudo_response_spectra", sdof.pseudo_response_spectra),
+                   ("true_response_spectra", sdof.true_response_spectra)):
+        form("sdof.%s" % nm, fn, ("$a", "$dt", "$T", 0.05), cap="sdof", count="loop")
+    form("sdof.nigam_and_jennings_response", sdof.nigam_and_jennings_response, ("$a", "$dt", "$T", 0.0), cap="sdof", count="loop")
+    form("sdof.response_series(list periods)", sdof.response_series, ("$a", "$dt", V(lambda E: [float(t) for t in E["T"]]), 0.05),
+         cap="sdof", count="loop")
+    cross("sdof.calc_resp_uke_spectrum", sdof.calc_resp_uke_spectrum, ("$asig",), [opt("periods", "$T"), opt("xi", 0.02)],
+          cap="sdofmany", count="loop")
+    cross("sdof.calc_input_energy_spectrum", sdof.calc_input_energy_spectrum, ("$asig",),
+          [opt("periods", "$T"), opt("xi", 0.02), opt("series", True)], cap="sdofmany", count="loop")
+    cross("sdof.absmax(2d)", sdof.absmax, ("$m2d",), [opt("axis", 1, 0)])
+    form("sdof.absmax(1d)", sdof.absmax, ("$a",))
+    form("sdof.compute_a_and_b", sdof.compute_a_and_b, (0.05, "$w", "$dt"), count="nm")
+    form("sdof.single_elastic_response", sdof.single_elastic_response, ("$a", "$dt", V(lambda E: 12 * E["dt"]), 0.05), cap="elastic")
+    form("sdof.slow_response_spectra", sdof.slow_response_spectra, ("$a", "$dt", V(lambda E: E["T"][1:4]), "$xis"), cap="elastic3")
+
+    # --- displacements
+    for nm, fn in (("calc_velo_and_disp_from_accel_arr", disp_mod.calc_velo_and_disp_from_accel_arr),
+                   ("velocity_and_displacement_from_acceleration", disp_mod.velocity_and_displacement_from_acceleration)):
+        cross("disp.%s" % nm, fn, ("$a", "$dt"), [opt("trap", False)])
+    cross("disp.calc_velo_and_disp_from_accel_arr(0-d dt)", disp_mod.calc_velo_and_disp_from_accel_arr, ("$a", "$dt0"), [opt("trap", False)])
+
+    # --- im
+    sd = [opt("start", 0.1), opt("end", 0.8)]
+    cross("im.calc_sig_dur_vals", im.calc_sig_dur_vals, ("$a", "$dt"), sd + [opt("se", True)])
+    cross("im.calc_significant_duration", im.calc_significant_duration, ("$a", "$dt"), sd)
+    cross("im.calc_sig_dur", im.calc_sig_dur, ("$asig",), sd + [opt("im", L("calc_cav", im.calc_cav)), opt("se", True)])
+    form("im.calc_peak", im.calc_peak, ("$a",), cap="vec2")
+    form("im.calculate_peak", im.calculate_peak, ("$a",), cap="vec2")
+    for nm in ("calc_sir", "calc_arias_intensity", "calc_cav", "calc_isv", "calc_integral_of_abs_velocity",
+               "calc_cumulative_abs_displacement", "calc_integral_of_abs_acceleration", "calc_unit_kinetic_energy", "max_fa_period"):
+        form("im.%s" % nm, getattr(im, nm), ("$asig",), cap="vec2")
+    form("im.calc_cav_dp", im.calc_cav_dp, ("$asig_long",), cap="vec2")
+    cross("im.cumulative_response_spectra", im.cumulative_response_spectra, ("$asig", "arias_intensity"),
+          [opt("periods", "$T"), opt("xi", 0.02)], cap="sdofmany", count="loop")
+    form("im.calc_max_velocity_period", im.calc_max_velocity_period, ("$asig",), cap="sdofmany")
+    form("im.max_acceleration_period", im.max_acceleration_period, ("$asig",), cap="sdofmany")
+    for nm in ("calc_bandwidth_freqs", "calc_bandwidth_f_min", "calc_bandwidth_f_max"):
+        cross("im.%s" % nm, getattr(im, nm), ("$asig",), [opt("ratio", 0.5)], cap="smooth")
+    cross("im.calc_brac_dur", im.calc_brac_dur, ("$asig", "$thr"), [opt("se", True)])
+    form("im.calc_brac_dur(never exceeded,se)", im.calc_brac_dur, ("$asig", V(lambda E: 10.0 * np.max(np.abs(E["af"])) + 1.0)), {"se": True})
+    form("im.calc_bracketed_duration", im.calc_bracketed_duration, ("$asig", "$thr"))
+    form("im.calc_acc_rms", im.calc_acc_rms, ("$asig", "$thr"))
+    form("im.calc_a_rms", im.calc_a_rms, ("$asig", "$thr"))
+    cross("im.calc_n_cyc_array_w_power_law", im.calc_n_cyc_array_w_power_law, ("$a", "$aref", 0.3), [opt("cut_off", 0.05)], cap="peaks")
+    cross("im.calc_n_cyc_array_w_power_law(array b)", im.calc_n_cyc_array_w_power_law, ("$a", "$aref", "$bexp"), [opt("cut_off", 0.05)],
+          cap="peaks", count="nm")
+    form("im.calc_cyc_amp_array_w_power_law", im.calc_cyc_amp_array_w_power_law, ("$a", 15, 0.3), cap="peaks")
+    form("im.calc_cyc_amp_array_w_power_law(array b)", im.calc_cyc_amp_array_w_power_law, ("$a", 7.5, "$bexp"), cap="peaks", count="nm")
+    form("im.calc_cyc_amp_gm_arrays_w_power_law", im.calc_cyc_amp_gm_arrays_w_power_law, ("$a", "$b", 15, 0.3), cap="peaks")
+    form("im.calc_cyc_amp_gm_arrays_w_power_law(array b)", im.calc_cyc_amp_gm_arrays_w_power_law, ("$a", "$b", 15, "$bexp"), cap="peaks",
+         count="nm")
+    form("im.calc_cyc_amp_combined_arrays_w_power_law", im.calc_cyc_amp_combined_arrays_w_power_law, ("$a", "$b", 15, 0.3), cap="peaks")
+    for nm in ("calc_asi", "calc_vsi", "calc_vsi_temporal"):
+        cross("im.%s" % nm, getattr(im, nm), ("$asig",), [opt("xi", 0.02), opt("periods", "$T", "$Tnz")], cap="sdofmany", count="loop")
+
+    # --- fns.average
+    cross("average.get_section_average", f_av.get_section_average, ("$sig",),
+          [opt("start", L("2dt", V(lambda E: 2 * E["dt"]))), opt("end", "$half_t")])
+    cross("average.get_section_average(index)", f_av.get_section_average, ("$sig",), [opt("start", 2), opt("end", "$half_i")],
+          fixed={"index": True})
+    cross("average.calc_step_fn_vals_error", f_av.calc_step_fn_vals_error, ("$a",), [opt("pow", 2), opt("dir", "down", "up")], cap="quad")
+    cross("average.calc_step_fn_steps_vals", f_av.calc_step_fn_steps_vals, ("$a",), [opt("ind", "$third_i")], cap="quad")
+    for steps in (5, 12):
+        cross("average.calc_roll_av_vals(%d)" % steps, f_av.calc_roll_av_vals, ("$a", steps), [opt("mode", "backward", "centre")])
+
+    # --- fns.generic
+    form("generic.interp2d", f_gen.interp2d, ("$xq", "$xf", "$ftab"), count="nm")
+    cross("generic.interp_left", f_gen.interp_left, ("$xq_in", "$xf"), [opt("y", "$ycol")], count="nm")
+    cross("generic.interp_left(scalar)", f_gen.interp_left, (1.25, "$xf"), [opt("y", "$ycol")])
+    cross("generic.remove_poly", f_gen.remove_poly, ("$a",), [opt("poly_fit", 2, 1)])
+
+    # --- fns.frequency
+    cross("frequency.get_sig_freq_range", f_fr.get_sig_freq_range, ("$asig",), [opt("ratio", 5)], cap="smooth")
+    cross("frequency.get_sig_array_indexes_range", f_fr.get_sig_array_indexes_range, ("$smooth",), [opt("ratio", 5)], cap="smooth")
+    form("frequency.calc_fourier_moment", f_fr.calc_fourier_moment, ("$asig", 2), cap="vec2")
+    form("frequency.get_bandwidth_boore_2003", f_fr.get_bandwidth_boore_2003, ("$asig",), cap="vec2")
+    cross("frequency.calc_smooth_fa_spectrum", f_fr.calc_smooth_fa_spectrum, ("$fa_freqs", "$fa_spec", "$sm_freqs"), [opt("band", 20)],
+          cap="smooth", count="nm")
+    cross("frequency.calc_smooth_fa_spectrum(default freqs)", f_fr.calc_smooth_fa_spectrum, ("$fa_freqs", "$fa_spec"), [opt("band", 20)],
+          cap="quad")
+    cross("frequency.generate_smooth_fa_spectrum", f_fr.generate_smooth_fa_spectrum, ("$sm_freqs", "$fa_freqs", "$fa_spec"),
+          [opt("band", 20)], cap="smooth", count="nm")
+    cross("frequency.calc_smoothing_matrix_konno_1998", f_fr.calc_smoothing_matrix_konno_1998, ("$fa_freqs", "$sm_freqs"), [opt("band", 20)],
+          cap="smooth", count="nm")
+    cross("frequency.calc_smoothing_matrix_konno_1998(default freqs)", f_fr.calc_smoothing_matrix_konno_1998, ("$fa_freqs",),
+          [opt("band", 20)], cap="quad")
+    form("frequency.calc_smooth_fa_spectrum_w_custom_matrix", f_fr.calc_smooth_fa_spectrum_w_custom_matrix, ("$asig", "$smat"), cap="smooth",
+         count="nm")
+    cross("frequency.generate_fa_spectrum", f_fr.generate_fa_spectrum, ("$sig",), [opt("n_pad", False)], cap="vec2")
+    cross("frequency.calc_fa_spectrum", f_fr.calc_fa_spectrum, ("$sig",), [opt("n", "$n_fft"), opt("p2_plus", 1)], cap="vec2")
+    form("frequency.fas2values", f_fr.fas2values, ("$fa_spec", "$dt"), cap="vec2")
+    cross("frequency.fas2signal", f_fr.fas2signal, ("$fa_spec", "$dt"), [opt("stype", "acc")], cap="vec2")
+
+    # --- fns.peaks_and_crossings
+    cross("peaks.get_peak_array_indices", f_pk.get_peak_array_indices, ("$a",), [opt("ptype", "max", "min")])
+    form("peaks.get_peak_indices", f_pk.get_peak_indices, ("$asig",))
+    cross("peaks.get_zero_crossings_array_indices", f_pk.get_zero_crossings_array_indices, ("$a",), [opt("keep_adj_zeros", True)])
+    cross("peaks.get_zero_crossings_array_indices(tol)", f_pk.get_zero_crossings_array_indices, ("$a",), [opt("keep_adj_zeros", True)],
+          cap="zctol", fixed={"tol": "$thr"})
+    cross("peaks.get_zero_crossings_array_indices(one-signed)", f_pk.get_zero_crossings_array_indices, ("$apos",),
+          [opt("keep_adj_zeros", True), opt("tol", 0.5)])
+    form("peaks.get_zero_crossings_indices", f_pk.get_zero_crossings_indices, ("$asig",))
+    cross("peaks.get_zero_and_peak_array_indices", f_pk.get_zero_and_peak_array_indices, ("$a",), [opt("zvals", "$a2"), opt("min_step", 2)],
+          cap="peaks")
+    cross("peaks.get_major_change_indices", f_pk.get_major_change_indices, ("$a",),
+          [opt("rtol", 1e-3), opt("atol", 1e-2), opt("already_diff", True), opt("dx", 0.5)], cap="major")
+    for nm in ("determine_peaks_only_delta_series", "determine_pseudo_cyclic_peak_only_series", "determine_indices_of_peaks_for_cleaned_array",
+               "determine_indices_of_peaks_for_cleaned", "clean_out_non_changing", "determine_peak_only_delta_series_4_cleaned_data"):
+        form("peaks.%s" % nm, getattr(f_pk, nm), ("$a",))
+    form("peaks.get_switched_peak_indices", f_pk.get_switched_peak_indices, ("$asig",), cap="peaks")
+    form("peaks.get_switched_peak_indices(array)", f_pk.get_switched_peak_indices, ("$a",), cap="peaks")
+    cross("peaks.get_switched_peak_array_indices", f_pk.get_switched_peak_array_indices, ("$a",), [opt("tol", "$thr")], cap="peaks")
+    cross("peaks.get_switched_peak_array_indices(one-signed)", f_pk.get_switched_peak_array_indices, ("$apos",), [opt("tol", 0.5)], cap="peaks")
+    cross("peaks.get_n_cyc_array", f_pk.get_n_cyc_array, ("$a",), [opt("opt", "switched"), opt("start", "peak")], cap="peaks")
+
+    # --- fns.time_shift
+    cross("time_shift.put_array_in_2d_array", f_ts.put_array_in_2d_array, ("$a", "$shifts"), [opt("clip", "both", "end", "start")], count="nm")
+    cross("time_shift.join_values_w_shifts", f_ts.join_values_w_shifts, ("$a", "$ashifts"), [opt("jtype", "sub")], count="nm")
+    cross("time_shift.join_sig_w_time_shift", f_ts.join_sig_w_time_shift, ("$sig", "$tshifts"), [opt("jtype", "sub")], count="nm")
+    form("time_shift.time_indices", f_ts.time_indices, ("$n", "$dt", 0, "$half_t", False))
+    form("time_shift.time_indices(index)", f_ts.time_indices, ("$n", "$dt", 2, "$half_i", True))
+
+    # --- fns.time_step
+    tds = [L(k, dtv[k]) for k in ("dt/2.5", "dt*2.5", "dt")]
+    form("time_step.time_series_from_motion", f_tstep.time_series_from_motion, ("$a", "$dt"))
+    cross("time_step.interp_array_to_approx_dt", f_tstep.interp_array_to_approx_dt, ("$a", "$dt"), [opt("target_dt", *tds), opt("even", False)])
+    cross("time_step.interp_array_to_approx_dt(0-d dt)", f_tstep.interp_array_to_approx_dt, ("$a", "$dt0"),
+          [opt("target_dt", *tds), opt("even", False)])
+    cross("time_step.interp_to_approx_dt", f_tstep.interp_to_approx_dt, ("$asig",),
+          [opt("target_dt", L("dt/3", dtv["dt/3"]), L("dt*2.5", dtv["dt*2.5"]), L("dt", dtv["dt"])), opt("even", False)])
+    cross("time_step.interp_to_approx_dt(even record)", f_tstep.interp_to_approx_dt, ("$asig_even",), [opt("target_dt", L("dt", dtv["dt"]))])
+    cross("time_step.resample_to_approx_dt", f_tstep.resample_to_approx_dt, ("$asig",),
+          [opt("target_dt", L("dt/2", dtv["dt/2"]), L("dt*2.5", dtv["dt*2.5"]), L("dt", dtv["dt"])), opt("even", False)], cap="resample")
+    cross("time_step.resample_to_approx_dt(even record)", f_tstep.resample_to_approx_dt, ("$asig_even",), [opt("target_dt", L("dt", dtv["dt"]))],
+          cap="resample")
+
+    # --- stockwell
+    cross("stockwell.transform", stockwell.transform, ("$a",), [opt("interp", True)], cap="stock")
+    cross("stockwell.transform_w_scipy_fft", stockwell.transform_w_scipy_fft, ("$a",), [opt("interp", True)], cap="stock")
+    cross("stockwell.transform_slow", stockwell.transform_slow, ("$a",), [opt("interp", True), opt("ith", 2)], cap="stock")
+    form("stockwell.itransform", stockwell.itransform, ("$stock",), cap="vec2")
+    form("stockwell.dep_itransform", stockwell.dep_itransform, ("$stock",), cap="vec2")
+    form("stockwell.get_max_tifq_vals_freq", stockwell.get_max_tifq_vals_freq, ("$stock", "$dt"), cap="vec2")
+    form("stockwell.get_max_stockwell_freq", stockwell.get_max_stockwell_freq, ("$asig",), cap="stock")
+    form("stockwell.get_stockwell_freqs", stockwell.get_stockwell_freqs, ("$asig_sw",))
+    form("stockwell.get_stockwell_times", stockwell.get_stockwell_times, ("$asig_sw",))
+
+    # --- surface
+    reds = [opt("nodal", False), opt("red", L("0.9", 0.9), L("arrays", "arrays")), opt("stt", "$stt"), opt("trim", True), opt("start", True)]
+    for nm in ("calc_surface_energy", "calc_cum_abs_surface_energy", "get_time_shift_motions"):
+        cross("surface.%s" % nm, getattr(surface, nm), ("$asig", "$tt"), reds, count="nm", red=True)
+        cross("surface.%s(scalar travel time)" % nm, getattr(surface, nm), ("$asig", "$tt0"), [opt("nodal", False), opt("trim", True)])
+    cross("surface.trim_to_length", surface.trim_to_length, ("$e2d", "$n", "$tt", "$dt"),
+          [opt("trim", True), opt("start", True), opt("s2s_travel_time", "$stt")], count="nm",
+          passthrough=lambda kw: not kw.get("trim") and not kw.get("start"))
+
+    # --- multiple
+    form("multiple.combine_at_angle", multiple.combine_at_angle, ("$asig", "$bsig", 33.0))
+    cross("multiple.compute_rotated(pga)", multiple.compute_rotated, ("$asig", "$bsig"), [opt("angle_off_ns", 20.0)],
+          fixed={"parameter": "pga", "points": 5}, cap="vec2")
+    cross("multiple.compute_rotated(arias)", multiple.compute_rotated, ("$asig", "$bsig"), [opt("angle_off_ns", 20.0)],
+          fixed={"parameter": "arias_intensity", "points": 4}, cap="vec2")
+    cross("multiple.compute_rotated(func)", multiple.compute_rotated, ("$asig", "$bsig"), [opt("angle_off_ns", 20.0)],
+          fixed={"func": im.calc_cav, "points": 3}, cap="vec2")
+
+    # --- object methods that take caller arrays (settings): the arrays must come back unchanged
+    form("AccSignal.generate_response_spectrum(periods)", _m(lambda o, arr: (o.generate_response_spectrum(response_times=arr), np.array(o.s_a))[1]),
+         ("$T_desc",), cap="sdofmany", count="loop")
+    form("AccSignal.gen_response_spectrum(periods, ratio)",
+         _m(lambda o, arr: (o.gen_response_spectrum(response_times=arr, min_dt_ratio=2), np.array(o.s_d))[1]), ("$T_mixed",), cap="sdofmany",
+         count="loop")
+    form("AccSignal.gen_response_spectrum(periods, xi, ratio)",
+         _m(lambda o, arr: (o.gen_response_spectrum(response_times=arr, xi=0.02, min_dt_ratio=8), np.array(o.s_v))[1]), ("$T_mixed",),
+         cap="sdofmany", count="loop")
+    form("AccSignal.response_series(periods)", _m(lambda o, arr: o.response_series(response_times=arr, xi=0.02)), ("$T_desc",), cap="sdof",
+         count="loop")
+    form("AccSignal.response_times=", _m(lambda o, arr: (setattr(o, "response_times", arr), np.array(o.s_a))[1]), ("$T_mixed",), cap="sdofmany",
+         count="loop")
+    form("Signal.smooth_fa_freqs=", _m(lambda o, arr: (setattr(o, "smooth_fa_freqs", arr), np.array(o.smooth_fa_spectrum))[1]), ("$F_desc",),
+         cap="smooth", count="nm")
+    form("Signal.gen_smooth_fa_spectrum(freqs)", _m(lambda o, arr: (o.gen_smooth_fa_spectrum(smooth_fa_freqs=arr), np.array(o.smooth_fa_spectrum))[1]),
+         ("$F_desc",), cap="smooth", count="nm")
+    form("Signal.gen_smooth_fa_spectrum(freqs, band)",
+         _m(lambda o, arr: (o.gen_smooth_fa_spectrum(smooth_fa_freqs=arr, band=20), np.array(o.smooth_fa_spectrum))[1]), ("$F_desc",),
+         cap="smooth", count="nm")
+    form("Signal.butter_pass(ndarray cut-offs)", _m(lambda o, arr: (o.butter_pass(arr, filter_order=2), np.array(o.values))[1]), ("$cut",), cap="vec2")
+    form("Signal.add_series", _m(lambda o, arr: (o.add_series(arr), np.array(o.values))[1]), ("$a",))
+    form("Signal.add_signal", _m(lambda o, other: (o.add_signal(other), np.array(o.values))[1]), ("$bsig",))
+    form("Signal.reset_values", _m(lambda o, arr: (o.reset_values(arr), np.array(o.values))[1]), ("$a",))
+    # the time step as a 0-d ndarray (what np.load / np.loadtxt return for a stored scalar): it is an argument like any other
+    form("sdof.response_series(0-d dt)", sdof.response_series, ("$a", "$dt0", "$T", 0.05), cap="sdof")
+    form("sdof.pseudo_response_spectra(0-d dt)", sdof.pseudo_response_spectra, ("$af", "$dt0", "$T", 0.05), cap="sdof")
+    form("AccSignal(0-d dt).s_a",
+         V(lambda E: (lambda d0: (lambda o: (np.array(o.s_a), np.array(o.time), o.pgv, float(o.dt)))(
+             eqsig.AccSignal(np.array(E["af"]), d0, response_times=np.array([3 * E["dt"], 9 * E["dt"], 30 * E["dt"]]))))), ("$dt0",),
+         cap="sdofmany")
+    form("interp_to_approx_dt(AccSignal with 0-d dt)",
+         V(lambda E: (lambda d0: (lambda o: (f_tstep.interp_to_approx_dt(o, target_dt=E["dt"] / 3), float(o.dt)))(
+             eqsig.AccSignal(np.array(E["af"]), d0)))), ("$dt0",), cap="vec2")
+    form("loader.save_signal", loader.save_signal, ("$tmpfile", "$asig"), cap="save", loader=True)
+    form("loader.save_values_and_dt", loader.save_values_and_dt, ("$tmpfile", "$a", "$dt", "lab"), cap="save", loader=True)
+
+
+_build_forms()
+PRIMARY = sorted(k for k, f in FORMS.items() if f.primary)
+ROTATING = sorted(k for k, f in FORMS.items() if not f.primary)
+ROTATE = 4  # every small-record case runs all primary forms and one in ROTATE of the other forms (rotating with the case's seed)
+
+# forms that raise on the pinned tree for every input, for a reason that is not a C05 matter (the inputs must still be unchanged):
+# np.trapz no longer exists in NumPy 2.x; calc_a_rms was removed (always raises); calc_sir unpacks the scalar significant duration
+ALWAYS_REJECTED = ("im.calc_acc_rms", "im.calc_a_rms", "im.calc_sir", "im.calc_vsi_temporal", "frequency.calc_fourier_moment",
+                   "frequency.get_bandwidth_boore_2003")
+
+
+def _expected_reject(name):
+    return name.startswith(ALWAYS_REJECTED)
+
+
+def _kwargs_of(f, E):
+    """Resolve the keyword arguments of a form (the surface 'red' pseudo-option stands for up_red and down_red together: the
+    library accepts two scalars or two arrays of one value per travel time)."""
+    kw = dict(f.flags.get("fixed") or {})
+    kw.update(f.kwargs)
+    out = {}
+    for k, v in kw.items():
+        if k == "red" and f.flags.get("red"):
+            if isinstance(v, str) and v == "arrays":
+                out["up_red"], out["down_red"] = E["red"], E["red2"]
+            else:
+                out["up_red"], out["down_red"] = v, v - 0.05
+        else:
+            out[k] = _resolve(v, E)
+    return out
 
 
 def _scribble(x):
@@ -458,9 +834,18 @@ def _scribble(x):
             _scribble(v)
 
 
-def _on_fresh(E, f):
-    """Run a method of a freshly constructed AccSignal (so that calling twice is repeatable and the object itself is not an argument)."""
-    return f(E["fresh_asig"]())
+def _arrays(x, out=None):
+    """The ndarrays inside a result / an argument (signal -> its values)."""
+    out = [] if out is None else out
+    if isinstance(x, np.ndarray):
+        out.append(x)
+    elif isinstance(x, eqsig.Signal):
+        if isinstance(x.values, np.ndarray):
+            out.append(x.values)
+    elif isinstance(x, (tuple, list)) and len(x) <= 16:
+        for v in x:
+            _arrays(v, out)
+    return out
 
 
 def _same(x, y):
@@ -481,6 +866,63 @@ def _same(x, y):
         return x == y
 
 
+def _check_form(ctx, f, E, how):
+    """The purity assertions for one call form.  Returns True when the form was evaluated, False when the library rejected the
+    arguments (raised) - then only 'inputs unchanged' is asserted."""
+    name = f.name
+    fn = _resolve(f.fn, E)
+    args = tuple(_resolve(x, E) for x in f.args)
+    kwargs = _kwargs_of(f, E)
+    n = E["n"]
+    where = "(%s input, n=%d%s)" % (how, n, "" if E["m"] is None else ", m=%d" % E["m"])
+    allargs = list(args) + list(kwargs.values())
+    before = [_snap(x) for x in allargs]
+    passthrough = f.flags.get("passthrough")
+    passthrough = bool(passthrough and passthrough(f.kwargs))
+    res = []
+    err = None
+    for rep in range(2):
+        try:
+            with warnings.catch_warnings():
+                warnings.simplefilter("ignore")
+                res.append(fn(*args, **kwargs))
+        except MemoryError as e:
+            raise core.Inconclusive("out of memory in %s %s: %s" % (name, where, str(e)[:100]))
+        except Exception as e:  # noqa  (rejected container / argument: not a C05 matter)
+            err = e
+            break
+        if rep == 0 and not f.flags.get("loader"):
+            # a result belongs to the caller: it shares no memory with an argument ...
+            if not passthrough:
+                for r in _arrays(res[0]):
+                    for i, x in enumerate(allargs):
+                        for xv in _arrays(x):
+                            if np.may_share_memory(r, xv) and np.shares_memory(r, xv):
+                                ctx.fail("%s returned a result that shares memory with its argument #%d %s" % (name, i, where))
+                # ... so the caller may overwrite it in place (shifting indices, scaling a series) before calling again: keep a
+                # pristine copy for the comparison and scribble over the original
+                pristine = copy.deepcopy(res[0]) if not isinstance(res[0], eqsig.Signal) else res[0]
+                _scribble(res[0])
+                res[0] = pristine
+    after = [_snap(x) for x in allargs]
+    for i, (p, q) in enumerate(zip(before, after)):
+        if p != q:
+            ctx.fail("%s modified its argument #%d %s%s" % (name, i, where, "" if err is None else " before raising %s" % type(err).__name__))
+    if err is not None:
+        return False
+    if f.flags.get("loader"):
+        return True
+    # a returned signal owns its data: it is not one of the arguments
+    for r in (res[0] if isinstance(res[0], (tuple, list)) else [res[0]]):
+        if isinstance(r, eqsig.Signal):
+            for x in allargs:
+                if x is r:
+                    ctx.fail("%s returned its own argument object instead of a new signal %s" % (name, where))
+    if not _same(res[0], res[1]):
+        ctx.fail("%s returned a different result when called again %s" % (name, where))
+    return True
+
+
 @st.composite
 def _pure_cases(draw):
     n = draw(st.integers(24, 200 if core.tier() == "quick" else 300))
@@ -491,11 +933,14 @@ def _pure_cases(draw):
 
 
 @clause(CLAUSES, "pure-functions", _pure_cases(), quick=40, thorough=100,
-        rule="each case calls, for each of the three container variants, EVERY registry entry (100 call forms covering sdof, displacements, im, fns.average/generic/frequency/"
-             "peaks_and_crossings/time_shift/time_step, stockwell, surface, multiple, loader.save) twice on records of n 24..300 given as "
-             "float64 / int64 ndarray or list; non-trivial = non-constant record",
-        oracle="snapshot (dtype, shape, bytes; signal values/dt/npts) of every argument before vs after each call; the two results equal (NaN-aware, exact) "
-               "although the caller overwrote the first result in place before the second call; returned signals are new objects sharing no memory with arguments",
+        rule="each case calls, for each of the three container variants (float64 / int64 ndarray, list), every PRIMARY call form (one per function "
+             "with all options at their defaults + one with every option non-default, the object methods taking arrays, the 0-d dt variants, "
+             "loader.save) and one in 4 (rotating with the case) of the remaining forms of the cross product of every function's optional "
+             "arguments (%d forms in all: sdof, displacements, im, fns.average/generic/frequency/peaks_and_crossings/time_shift/time_step, "
+             "stockwell, surface, multiple), twice, on records of n 24..300; non-trivial = non-constant record" % len(FORMS),
+        oracle="snapshot (dtype, shape, bytes; signal values/dt/npts) of every argument before vs after each call; no array of the result shares "
+               "memory with an argument; the two results equal (NaN-aware, exact) although the caller overwrote the first result in place "
+               "before the second call; returned signals are new objects",
         require={"how=int": 0.9, "how=list": 0.9})
 def pure_functions(case, ctx):
     for how in (["float", "int", "list"] if "how" not in case else [case["how"]]):
@@ -504,87 +949,264 @@ def pure_functions(case, ctx):
 
 def _pure_one(case, ctx, how):
     af = np.array(gen.build(case["a"]), dtype=float)
-    bf = np.array(gen.build(case["b"]), dtype=float)
-    if len(bf) != len(af):
-        bf = np.resize(bf, len(af))
-    dt = case["dt"]
     n = len(af)
-    rs = np.random.RandomState(case["seed"])
     ctx.cls("how=" + how, gen.size_class(n), "kind=" + case["a"]["k"])
     ctx.nt(bool(np.ptp(af) > 0))
     a = _container(case["a"], how)
     b = _container(case["b"], how)
     if len(b) != n:
-        b = list(np.resize(np.asarray(b), n)) if how == "list" else np.resize(b, n)
-    af = np.array(a, dtype=float)
-    asig = eqsig.AccSignal(np.array(a, dtype=float), dt)
-    bsig = eqsig.AccSignal(np.array(b, dtype=float), dt)
-    sig = eqsig.Signal(np.array(a, dtype=float), dt)
-    nlong = max(n, int(2.2 / dt) + 2)
-    asig_long = eqsig.AccSignal(np.resize(af, nlong) * 1.0, dt)
-    fa_spec, fa_freqs = f_fr.calc_fa_spectrum(sig)
-    sm_freqs = np.logspace(-0.5, 1.2, 12)
-    E = {"a": a, "b": b, "af": af, "dt": dt, "T": np.array([0.0, 3 * dt, 12 * dt, 40 * dt]), "asig": asig, "bsig": bsig, "sig": sig,
-         "asig_long": asig_long, "fa_freqs": fa_freqs, "fa_spec": fa_spec, "sm_freqs": sm_freqs,
-         "smooth": np.array(asig.smooth_fa_spectrum), "smat": f_fr.calc_smoothing_matrix_konno_1998(asig.fa_freqs, sm_freqs),
-         "tt": np.array([0.0, 1.5 * dt, 4 * dt]), "red": np.array([1.0, 0.9, 0.8]), "shifts": np.array([-2, 0, 3]),
-         "thr": float(0.3 * np.max(np.abs(af))) if np.any(af) else 0.1, "aref": float(0.65 * max(np.max(np.abs(af)), 1e-9)),
-         "bexp": np.array([0.2, 0.34, 0.5]), "xf": np.arange(6, dtype=float), "ftab": rs.standard_normal((6, 3)),
-         "xq": np.array([-0.5, 0.0, 1.25, 4.0, 5.5]), "xq_in": np.array([0.0, 1.25, 4.0, 5.0]), "ycol": rs.standard_normal(6),
-         "stock": stockwell.transform(af),
-         "asig_even": eqsig.AccSignal(np.array(af[:2 * (n // 2)]), dt), "apos": np.abs(af) + 1.0, "dt0": np.array(dt),
-         "fresh_asig": (lambda: eqsig.AccSignal(np.array(af), dt)),
-         "T_desc": np.array([40 * dt, 12 * dt, 3 * dt]), "T_mixed": np.array([12 * dt, 40 * dt, 3 * dt, 25 * dt]),
-         "F_desc": np.array([20.0, 5.0, 1.0, 0.3]), "cut": np.array([0.05 / dt * 0.2, 0.05 / dt * 2.0])}
-    reg = _registry(E)
-    env_snap = {k: _snap(v) for k, v in E.items() if isinstance(v, (np.ndarray, list, eqsig.Signal))}
+        b = [float(v) for v in np.resize(np.asarray(b), n)] if how == "list" else np.resize(b, n)
+    E = Env(a, b, case["dt"], case["seed"])
+    names = PRIMARY + [nm for i, nm in enumerate(ROTATING) if (i + case["seed"]) % ROTATE == 0]
+    if "forms" in case:  # (replay files / corpus may name the forms)
+        names = list(case["forms"])
     rejected = 0
-    for name in sorted(reg):
-        fn, args, kwargs = reg[name]
-        before = [_snap(x) for x in args] + [_snap(v) for v in kwargs.values()]
-        res = []
-        err = None
-        for rep in range(2):
-            try:
-                res.append(fn(*args, **kwargs))
-            except Exception as e:  # noqa  (rejected container / argument: not a C05 matter)
-                err = e
-                break
-            if rep == 0 and not name.startswith("loader."):
-                # the first answer belongs to the caller: keep a pristine copy for the comparison and scribble over the
-                # original (as a caller shifting indices or scaling a series in place would) before calling again
-                pristine = copy.deepcopy(res[0]) if not isinstance(res[0], eqsig.Signal) else res[0]
-                _scribble(res[0])
-                res[0] = pristine
-        after = [_snap(x) for x in args] + [_snap(v) for v in kwargs.values()]
-        for i, (p, q) in enumerate(zip(before, after)):
-            if p != q:
-                ctx.fail("%s modified its argument #%d (%s input, n=%d)%s" % (
-                    name, i, how, n, "" if err is None else " before raising %s" % type(err).__name__))
-        if err is not None:
-            rejected += 1
-            continue
-        if name.startswith("loader."):
-            continue
-        # a returned signal owns its data: it is not one of the arguments and shares no memory with them
-        for r in (res[0] if isinstance(res[0], (tuple, list)) else [res[0]]):
-            if isinstance(r, eqsig.Signal):
-                for x in list(args) + list(kwargs.values()):
-                    if x is r:
-                        ctx.fail("%s returned its own argument object instead of a new signal (%s input, n=%d)" % (name, how, n))
-                    xv = x.values if isinstance(x, eqsig.Signal) else x
-                    if isinstance(xv, np.ndarray) and isinstance(r.values, np.ndarray) and np.shares_memory(xv, r.values):
-                        ctx.fail("%s returned a signal whose values share memory with an argument (%s input, n=%d)" % (name, how, n))
-        if not _same(res[0], res[1]):
-            ctx.fail("%s returned a different result when called again (%s input, n=%d)" % (name, how, n))
-    for k, v in E.items():
-        if k in env_snap and _snap(v) != env_snap[k]:
-            ctx.fail("some analysis function modified the shared input %r" % k)
+    try:
+        for name in names:
+            if not _check_form(ctx, FORMS[name], E, how) and not _expected_reject(name):
+                rejected += 1
+        snap0 = E.d.get("_snap0")
+    finally:
+        E.cleanup()
     ctx.notes["rejected"] = rejected
     if how == "float" and len(np.unique(af)) > 4:  # (constant / two-level records are legitimately rejected by many functions)
-        if rejected > 4:
-            raise core.HarnessError("%d registry entries raised on a float64 record (builders out of date?)" % rejected)
+        if rejected > 0.06 * len(names):
+            raise core.HarnessError("%d of %d call forms raised on a float64 record (builders out of date?)" % (rejected, len(names)))
+
+
+# ---------------------------------------------------------------------------
+# mid-range sizes: the same assertions on records of laddered lengths (a function may switch to an in-place or view-returning
+# path only for long inputs, or only for many periods / shifts / travel times)
+
+def _hh(*parts):
+    import hashlib
+    return int(hashlib.blake2b(":".join(str(p) for p in parts).encode(), digest_size=8).hexdigest(), 16)
+
+
+MID_KINDS = ("quake", "sines", "walk")
+MID_DTS = (0.005, 0.01, 0.02)
+
+
+def _mid_record(n, kind, seed):
+    """An ordinary record of n samples: noise x envelope (+ floor), a few sines + noise, or a random walk + noise; non-zero mean,
+    no all-zero stretch, amplitude of a few units (so that the int64 variant, round(8 a), is not degenerate)."""
+    rs = np.random.RandomState(seed % (2 ** 31 - 1))
+    t = np.arange(n, dtype=float)
+    if kind == "quake":
+        x = (t + 1.0) / n
+        env = (x ** 2) * np.exp(-6.0 * x)
+        a = 3.0 * rs.standard_normal(n) * (0.05 + env / env.max()) + 0.07
+    elif kind == "sines":
+        a = (2.0 * np.sin(2 * np.pi * 7.3 * t / n + 0.4) + 1.1 * np.sin(2 * np.pi * t / 41.7) + 0.6 * np.sin(2 * np.pi * t / 9.3 + 1.0)
+             + 0.05 * rs.standard_normal(n) + 0.11)
+    else:
+        w = np.cumsum(rs.standard_normal(n))
+        a = 3.0 * w / max(1e-9, np.max(np.abs(w))) + 0.2 * rs.standard_normal(n) + 0.05
+    return a
+
+
+def _as_container(a, how):
+    if how == "int":
+        return np.array(np.round(a * 8), dtype=np.int64)
+    if how == "list":
+        return [float(v) for v in a]
+    return np.array(a, dtype=float)
+
+
+def _mid_case(i, name, n, how, m=None):
+    s = gen.run_seed()
+    h = _hh(s, "case", name, n, how, m)
+    case = {"form": name, "n": int(n), "how": how, "kind": MID_KINDS[h % 3], "dt": MID_DTS[(h // 3) % 3], "seed": int(h % (2 ** 31 - 1))}
+    if m is not None:
+        case["m"] = int(m)
+    return case
+
+
+def _top(cap, *tag):
+    """A length in the top tenth of [.., cap] (placed by hash)."""
+    lo = int(0.9 * cap)
+    return lo + _hh(*tag) % (cap - lo + 1)
+
+
+def _mid_plan(f, tier):
+    """[(n, how), ...] for one call form.  Quick: every form gets at least two mid-range lengths at every seed (float64 + one of
+    int64 / list each); the long records (top tenth of the form's affordable range and a rung of its upper half) go to the primary
+    forms and to a hash-chosen third of the others.  Thorough: every form, every rung, every container."""
+    s = gen.run_seed()
+    cap = CAPS[f.cap][0 if tier == "quick" else 1]
+    lo = LADDER_LO.get(f.cap, 2000)
+    top = _top(cap, s, "top", f.name)
+    alts = ["int", "list"] if _hh(s, "alt", f.name) % 2 else ["list", "int"]
+    mined = gen.mined_sizes(lo, cap, 8, "c05:" + f.name)
+    if tier != "quick":
+        rungs = gen.ladder(lo, int(0.9 * cap), 12, "c05t:" + f.name)
+        return [(n, how) for n in sorted(set(rungs + [top] + mined)) for how in ("float", "int", "list") if how != "list" or n <= 4 * LIST_MAX]
+    rungs = gen.ladder(lo, int(0.9 * cap), 10, "c05:" + f.name)
+    half = max(1, len(rungs) // 2)
+    lower, upper = rungs[:half], rungs[half:] or rungs
+    r_lo = lower[_hh(s, "lo", f.name) % len(lower)]
+    r_up = upper[_hh(s, "up", f.name) % len(upper)]
+    if f.primary:
+        plan = [(top, "float"), (r_up, alts[0]), (r_lo, alts[1])]
+        for c in sorted(mined, key=lambda c: _hh(s, "mined", f.name, c))[:1]:
+            plan.append((c, "float"))
+    elif _hh(s, "long", f.name) % 3 == 0:
+        plan = [(top, "float"), (r_lo, alts[0])]
+    else:
+        r2 = rungs[_hh(s, "any", f.name) % len(rungs)]
+        if r2 == r_lo:
+            r2 = rungs[(rungs.index(r_lo) + 1) % len(rungs)]
+        plan = [(r_lo, "float"), (r2, alts[0])]
+    # (python lists longer than LIST_MAX samples are not generated: converting them dominates every call)
+    return [(min(n, LIST_MAX) if how == "list" else n, how) for n, how in plan]
+
+
+LIST_MAX = 60000
+
+
+def _mid_enum(tier, shard, nshards):
+    i = 0
+    for name in sorted(FORMS):
+        for n, how in _mid_plan(FORMS[name], tier):
+            if i % nshards == shard:
+                yield _mid_case(i, name, n, how)
+            i += 1
+
+
+def _mid_check(case, ctx):
+    f = FORMS[case["form"]]
+    n, how = case["n"], case["how"]
+    E = Env(lambda: _as_container(_mid_record(n, case["kind"], case["seed"]), how),
+            lambda: _as_container(_mid_record(n, MID_KINDS[(MID_KINDS.index(case["kind"]) + 1) % 3], case["seed"] + 1), how),
+            case["dt"], case["seed"], m=case.get("m"))
+    ctx.cls("how=" + how, "cap=" + f.cap, "n>=%d" % (10 ** int(np.log10(n))), "kind=" + case["kind"])
+    if case.get("m"):
+        ctx.cls("m>=%d" % (10 ** int(np.log10(case["m"]))))
     try:
-        os.remove(_tmpfile())
-    except OSError:
-        pass
+        ok = _check_form(ctx, f, E, how)
+    finally:
+        E.cleanup()
+    if not ok:
+        ctx.cls("rejected", "rejected:" + ("expected" if _expected_reject(f.name) or how != "float" else "float"))
+    ctx.nt(ok)
+
+
+core.enum_clause(CLAUSES, "mid-range", _mid_enum, quick_shards=8,
+                 rule="every call form of the registry (the whole cross product of every function's optional arguments) on records of laddered "
+                      "lengths: the form's affordable range [2 000 (900 for the quadratic functions), cap] with cap by cost category from 2 300 "
+                      "(n x n temporaries) over 16 000 (python loop per sample) to 300 000 samples (vectorised) in the quick tier, 3 600 .. "
+                      "1 500 000 in the thorough tier; quick: per form >= 2 lengths (+ lengths aimed at integer literals of the source), "
+                      "float64 and one of int64 / list each, the top tenth of the range for primary forms and a hash-chosen third of the "
+                      "others; thorough: 12 rungs + top + mined x 3 containers for every form; non-trivial = the form was evaluated (not rejected)",
+                 oracle="as pure-functions: arguments bit-for-bit unchanged (snapshot dtype, shape, bytes / list deep copy), no result array shares "
+                        "memory with an argument, second call (after the caller scribbled over the first result) returns the same result",
+                 exhaustive_note="all call forms x planned (length, container) pairs at this seed",
+                 min_nontrivial=0.5)(_mid_check)
+
+
+# -- the count dimension (periods, shifts, travel times, exponents, target frequencies, table rows / query points)
+
+def _count_plan(f, tier):
+    s = gen.run_seed()
+    quick = tier == "quick"
+    if f.count == "loop":   # python loop over the n samples with m-vectors: n stays short
+        budget, n_lo, n_hi = (1.5e6, 300, 2500) if quick else (8e6, 300, 8000)
+    else:                   # vectorised (m x n) temporaries
+        budget, n_lo, n_hi = (2.5e6, 300, 60000) if quick else (2e7, 300, 200000)
+    m_top = _top(5000, s, "mtop", f.name)
+    rungs = gen.ladder(40, 4400, 8 if quick else 14, "c05m:" + f.name)
+    mined = [c for c in gen.mined_sizes(40, 5000, 6, "c05m:" + f.name)]
+    alts = ["int", "list"] if _hh(s, "malt", f.name) % 2 else ["list", "int"]
+
+    def n_of(m):
+        cap_n = CAPS[f.cap][0 if quick else 1]
+        return int(max(n_lo, min(n_hi, cap_n, budget // m)))
+    if not quick:
+        return [(m, n_of(m), how) for m in sorted(set(rungs + [m_top] + mined)) for how in ("float", "int", "list")]
+    r = rungs[_hh(s, "mr", f.name) % len(rungs)]
+    plan = [(r, n_of(r), alts[0])]
+    if f.primary or _hh(s, "mlong", f.name) % 3 == 0:
+        plan.append((m_top, n_of(m_top), "float"))
+    else:
+        r2 = rungs[(rungs.index(r) + 1 + _hh(s, "mr2", f.name) % (len(rungs) - 1)) % len(rungs)]
+        plan.append((r2, n_of(r2), "float"))
+    if f.primary and mined:
+        c = mined[_hh(s, "mm", f.name) % len(mined)]
+        plan.append((c, n_of(c), "float"))
+    return plan
+
+
+def _count_enum(tier, shard, nshards):
+    i = 0
+    for name in sorted(FORMS):
+        if FORMS[name].count is None:
+            continue
+        for m, n, how in _count_plan(FORMS[name], tier):
+            if i % nshards == shard:
+                yield _mid_case(i, name, n, how, m=m)
+            i += 1
+
+
+core.enum_clause(CLAUSES, "mid-range-counts", _count_enum, quick_shards=4,
+                 rule="every call form with a *count* dimension (periods of the sdof / spectra functions, shifts, travel times + reduction arrays, "
+                      "power-law exponents, target frequencies of the smoothing functions, table rows and query points of the interpolation helpers) "
+                      "with that count laddered over 40 .. 5 000 (>= 2 counts per form at every seed, the top tenth for primary forms and a "
+                      "hash-chosen third of the others, + counts aimed at integer literals of the source) and the record length chosen so that "
+                      "count x length is ~1e5 .. 2.5e6 (quick) / 2e7 (thorough); non-trivial = evaluated",
+                 oracle="as pure-functions (arguments unchanged, no shared memory, same result when called again)",
+                 exhaustive_note="all count-dimension call forms x planned (count, length, container) triples at this seed",
+                 min_nontrivial=0.5)(_mid_check)
+
+
+# -- ownership histories at mid-range lengths
+
+_OWN_SEQS = [
+    [["running_average", {"w": 5}], ["caller_write", {"src": "A", "i": 17, "v": 3}], ["reset", {"src": "B"}], ["rra_velocity", {"width": 7}],
+     ["caller_write", {"src": "B", "i": 123457, "v": -4}], ["rebase_displacement", {}], ["butter_pass", {"lo": 0.1, "hi": 0.2, "order": 2, "gibbs": None}],
+     ["reset", {"src": "A"}], ["remove_poly", {"k": 2}], ["zero_res_velocity", {"tz": None}], ["add_constant", {"c": 0.25}],
+     ["caller_write", {"src": "A", "i": 99991, "v": 5}]],
+    [["reset", {"src": "B"}], ["add_series", {"seed": 5}], ["caller_write", {"src": "B", "i": 1, "v": 2}], ["reset", {"src": "A"}],
+     ["correct_me", {}], ["zero_res_disp_and_velocity", {"tz": [0.1, 0.9]}], ["rra_acc", {"width": 9}], ["remove_average", {"section": 25}],
+     ["caller_write", {"src": "A", "i": 77777, "v": -1}], ["zero_res_displacement", {}], ["construct", {"src": "B"}], ["running_average", {"w": 12}],
+     ["add_signal", {"seed": 6}], ["caller_write", {"src": "B", "i": 31337, "v": 7}]],
+]
+
+
+def _own_enum(tier, shard, nshards):
+    s = gen.run_seed()
+    quick = tier == "quick"
+    sizes = gen.size_ladder(2000, 300000 if quick else 1500000, 8 if quick else 16, "c05own", mined_limit=4)
+    hows = ["float", "int", "list", "subclass", "arraylike"]
+    i = 0
+    for n in sizes:
+        for k, seq in enumerate(_OWN_SEQS):
+            for acc in ([True] if quick else [True, False]):
+                h = _hh(s, "own", n, k, acc)
+                ha = "float" if k == 0 else hows[h % 5]
+                hb = hows[(h // 5) % 5] if k == 0 else "float"
+                if n > 60000:  # (python lists of > 60 000 floats: the per-step snapshots dominate)
+                    ha = "subclass" if ha in ("list", "arraylike") else ha
+                    hb = "subclass" if hb in ("list", "arraylike") else hb
+                if i % nshards == shard:
+                    yield {"init": {"A": {"k": "quake", "n": int(n), "seed": int(h % 10 ** 6), "amp": 0},
+                                    "B": {"k": "noise", "n": int(n), "seed": int(h % 10 ** 6) + 1, "amp": 0},
+                                    "dt": MID_DTS[h % 3], "acc": acc, "how": {"A": ha, "B": hb}}, "ops": seq}
+                i += 1
+
+
+def _own_check(case, ctx):
+    h = Own(case["init"], ctx)
+    ctx.cls("n>=%d" % (10 ** int(np.log10(case["init"]["A"]["n"]))))
+    for op, args in case["ops"]:
+        h.step(op, args)
+    h.finish()
+
+
+core.enum_clause(CLAUSES, "mid-range-ownership", _own_enum, quick_shards=2,
+                 rule="the ownership history machine on records of laddered lengths 2 000 .. 300 000 (thorough: 1 500 000) + lengths aimed at "
+                      "integer literals of the source: two fixed histories covering every in-place correction, reset_values from the second "
+                      "container, caller writes into both containers; containers float64 / int64 / list / ndarray subclass / array-like; "
+                      "non-trivial = a mutator applied after a reset_values",
+                 oracle="the ownership invariants after every step (caller containers equal their snapshots; a caller write does not change "
+                        "Signal.values; values 1-d numeric ndarray with len == npts; time == dt*arange(npts) exactly)",
+                 exhaustive_note="sizes x 2 histories at this seed", min_nontrivial=0.5)(_own_check)
